@@ -85,6 +85,75 @@ theorem renormalised_total_preserved (img : Arr ℝ) (m n : ℕ) (hm : img.s0 = 
     exact ne_of_gt (lt_of_lt_of_le (abs_pos.mpr hS) h)
   exact ⟨renorm_total img _ (key _ hdc.2.1), renorm_total img _ (key _ hdc.2.2)⟩
 
+/-- **commutes with circular translation.** Blurring a circularly shifted image (`np.roll(img, (a, b))`) is the circular
+shift of the blurred image, at every sample, for every shape, shift of either sign, extent, angle and sampling (DFT shift
+theorem; holds for any real transfer function, renormalisation included). -/
+theorem blur_commutes_with_roll (img : Arr ℝ) (m n : ℕ) (hm : img.s0 = m) (hn : img.s1 = n) (hm0 : 0 < m) (hn0 : 0 < n)
+    (a b : ℤ) (os scale dist ang ps : ℝ) (i j : ℤ) :
+    (pixel ℂ (roll img a b) os).get i j = (roll (pixel ℂ img os) a b).get i j ∧
+    (jitter ℂ (roll img a b) scale ps os).get i j = (roll (jitter ℂ img scale ps os) a b).get i j ∧
+    (smear ℂ (roll img a b) dist ang ps os).get i j = (roll (smear ℂ img dist ang ps os) a b).get i j := by
+  have core : ∀ k : Arr ℝ, ∀ i j : ℤ,
+      (blurCore ℂ (roll img a b) k).get i j = (blurCore ℂ img k).get ((i - a) % m) ((j - b) % n) :=
+    fun k i j => blurCore_roll img k m n hm hn hm0 hn0 a b i j
+  have hsum : ∀ k : Arr ℝ, arrSum (blurCore ℂ (roll img a b) k) = arrSum (blurCore ℂ img k) := by
+    intro k
+    rw [← arrSum_roll (blurCore ℂ img k) m n hm hn a b, arrSum_eq, arrSum_eq]
+    have e0 : (blurCore ℂ (roll img a b) k).s0 = m := hm
+    have e1 : (blurCore ℂ (roll img a b) k).s1 = n := hn
+    have e2 : (roll (blurCore ℂ img k) a b).s0 = m := hm
+    have e3 : (roll (blurCore ℂ img k) a b).s1 = n := hn
+    rw [e0, e1, e2, e3]
+    refine sum_congr rfl fun i _ => sum_congr rfl fun j _ => ?_
+    rw [core k i j]
+    have f0 : (blurCore ℂ img k).s0 = m := hm
+    have f1 : (blurCore ℂ img k).s1 = n := hn
+    rw [roll_get, f0, f1]
+  have hren : ∀ k : Arr ℝ, (renorm (roll img a b) (blurCore ℂ (roll img a b) k)).get i j
+      = (roll (renorm img (blurCore ℂ img k)) a b).get i j := by
+    intro k
+    have f0 : (renorm img (blurCore ℂ img k)).s0 = m := hm
+    have f1 : (renorm img (blurCore ℂ img k)).s1 = n := hn
+    rw [roll_get, f0, f1]
+    simp only [renorm]
+    rw [hsum k, arrSum_roll img m n hm hn a b, core k i j]
+  refine ⟨?_, hren _, hren _⟩
+  have f0 : (pixel ℂ img os).s0 = m := hm
+  have f1 : (pixel ℂ img os).s1 = n := hn
+  rw [roll_get, f0, f1]
+  exact core _ i j
+
+example : ∃ (a b : ℤ), a < 0 ∧ 0 < b := ⟨-3, 2, by norm_num, by norm_num⟩
+
+/-- **a non-negative convolution is returned unchanged and keeps the total** (partial). Writing the exact circular
+convolution as the inverse transform of the product, `c = ifft2(fft2(img)·K)`: wherever `c` is real and non-negative the
+un-normalised output equals it, and if it is so at every sample the output total is `K[0,0]·Σ img = Σ img`.
+*Not proved:* that `c` is real — i.e. Hermitian symmetry of the three transfer functions on odd axes, and the size of the
+deviation caused by the unpaired Nyquist row/column on even axes; and the spatial-domain form of the convolution
+(convolution theorem). These clauses are evaluated on the real code by the oracle only. -/
+theorem nonneg_convolution_kept_partial (img k : Arr ℝ) (m n : ℕ) (hm : img.s0 = m) (hn : img.s1 = n) (hm0 : 0 < m)
+    (hn0 : 0 < n) (r : ℕ → ℕ → ℝ) (hr : ∀ i j, 0 ≤ r i j)
+    (hc : ∀ i j : ℕ, i < m → j < n →
+      (ifft2 (R := ℝ) (mulKernel (fft2 (R := ℝ) (toCx (K := ℂ) img)) k)).get i j = ((r i j : ℝ) : ℂ)) :
+    (∀ i j : ℕ, i < m → j < n → (blurCore ℂ img k).get i j = r i j) ∧
+    (k.get 0 0 = 1 → arrSum (blurCore ℂ img k) = arrSum img) := by
+  have hget : ∀ i j : ℕ, i < m → j < n → (blurCore ℂ img k).get i j = r i j := by
+    intro i j hi hj
+    show ‖(ifft2 (R := ℝ) (mulKernel (fft2 (R := ℝ) (toCx (K := ℂ) img)) k)).get i j‖ = r i j
+    rw [hc i j hi hj, Complex.norm_real, Real.norm_eq_abs, abs_of_nonneg (hr i j)]
+  refine ⟨hget, fun hk => ?_⟩
+  have h0 : (blurCore ℂ img k).s0 = m := hm
+  have h1 : (blurCore ℂ img k).s1 = n := hn
+  rw [arrSum_eq (blurCore ℂ img k), h0, h1]
+  simp only [Int.toNat_natCast]
+  have hs := sum_filtered img k m n hm hn hm0 hn0
+  rw [hk, one_mul] at hs
+  apply Complex.ofReal_injective
+  rw [← hs]
+  push_cast
+  exact sum_congr rfl fun i hi => sum_congr rfl fun j hj => by
+    rw [hget i j (mem_range.mp hi) (mem_range.mp hj), hc i j (mem_range.mp hi) (mem_range.mp hj)]
+
 /-- only `extent / pixelscale · oversample` enters: an extent in physical units with a pixel scale and an oversampling
 factor is the same blur as that extent expressed in samples -/
 theorem physical_units_equivalent (img : Arr ℝ) (extent ang ps os : ℝ) :
